@@ -52,7 +52,16 @@ namespace BitSerializer::Convert::Detail
 			else
 			{
 				auto value = static_cast<TTarget>(sourceValue);
-				result = (static_cast<TSource>(value) == sourceValue) && !((value > 0 && sourceValue < 0) || (value < 0 && sourceValue > 0));
+				if constexpr (std::is_floating_point_v<TTarget>)
+				{
+					// The value can be rounded up to 2^N (greater than any source value), casting it back would be undefined behavior
+					constexpr auto limit = static_cast<TTarget>(std::numeric_limits<TSource>::max() / 2 + 1) * 2;
+					result = value < limit && static_cast<TSource>(value) == sourceValue;
+				}
+				else
+				{
+					result = (static_cast<TSource>(value) == sourceValue) && !((value > 0 && sourceValue < 0) || (value < 0 && sourceValue > 0));
+				}
 				if (result) {
 					targetValue = value;
 				}
